@@ -17,7 +17,7 @@ EXPLANATION = (
     "see C07). [WF-CSUM] the checksum is the last byte, computed by the function the reader uses (single definition), as a plain sum over "
     "positions 2..18 reduced & 0xff, so any single-byte change in positions 2..19 changes sum or stored byte; the reader's comparison dominates "
     "_decode (C20 CSUM-DOM). [WF-LINE] a Yacht Devices packet is hex tokens and spaces ended by one CR LF. [WF-ACT] the Actisense line is three "
-    "tokens (header, PGN, payload hex) that the reader indexes after the timestamp token. UNDECIDED: field-value level round trip (C02/C09), what a "
+    "tokens (header, PGN, payload hex) that the reader indexes after the timestamp token. SER-DELIVER / BUF-PROGRESS are decided by rules_serial.py (interpreted byte-class streams); WF-CSUM / SER-CONST on the interpreted checksum function, writer packet and reader acceptance. UNDECIDED: field-value level round trip (C02/C09), what a "
     "gateway does with the packets."
 )
 ASSUMPTIONS = ["CPython ast parser", "absint.py / bitprov.py transfer functions", "the Yacht Devices and Actisense gateways prepend a time token (and a direction token) on receive",
